@@ -347,3 +347,19 @@ def frac_close(fl, fr, tol):
     if isinstance(fl, float) and (math.isnan(fl) or math.isinf(fl)):
         return False
     return abs(Fraction(fl) - fr) <= Fraction(tol)
+
+
+TOL_T = Fraction(1, 10**12)
+
+
+def hexes_close(hexes, fracs, tol=TOL_T):
+    """every float (given as hex strings, row-major) is within tol of the exact rational at the
+    same position; the property texts fix values, not the rounding of one particular formula, so a
+    harmless rewrite of the arithmetic (reciprocal multiplication, other summation order) must pass"""
+    flat = [x for row in fracs for x in row] if fracs and isinstance(fracs[0], list) else list(fracs)
+    if len(hexes) != len(flat):
+        return False
+    for h, q in zip(hexes, flat):
+        if h == 'nan' or not frac_close(float.fromhex(h), q, tol):
+            return False
+    return True
